@@ -57,7 +57,7 @@ func genRace(r *Rng, prop string) *Scenario {
 		for ph := 0; ph < int(r.between(1, 3)); ph++ {
 			n := int(r.between(2, 8))
 			if prop == "C15" {
-				n = int(r.between(4, 16))
+				n = int(r.between(8, 64))
 			}
 			if prop != "C15" && r.chance(0.5) {
 				// a burst of large packets from many writers plus acknowledgements from
